@@ -1,0 +1,175 @@
+//go:build verif
+
+package app
+
+// Exported wrappers used only by the verification harness (/verif). Add-only, compiled with -tags verif.
+
+import (
+	"fmt"
+	"log/slog"
+	"os"
+	"path/filepath"
+	"sort"
+	"strings"
+
+	m "github.com/Eyevinn/dash-mpd/mpd"
+)
+
+// VerifCounters wraps seqCounters.
+type VerifCounters struct{ c *seqCounters }
+
+func NewVerifCounters(windowSize uint32) *VerifCounters {
+	return &VerifCounters{c: newSeqCounters(windowSize)}
+}
+func (v *VerifCounters) Add(seqNr uint32)  { v.c.add(seqNr) }
+func (v *VerifCounters) Resize(w uint32)   { v.c.resize(w) }
+func (v *VerifCounters) Drop(seqNr uint32) { v.c.drop(seqNr) }
+func (v *VerifCounters) NewFullCounter(nrTracks, maxSeqNr uint32) uint32 {
+	return v.c.newFullCounter(nrTracks, maxSeqNr)
+}
+func (v *VerifCounters) FullRange(nrTracks uint32) (uint32, uint32) { return v.c.fullRange(nrTracks) }
+func (v *VerifCounters) Dump() string {
+	var sb strings.Builder
+	fmt.Fprintf(&sb, "nr=%d w=%d len=%d [", v.c._nrCounters, v.c.windowSize, len(v.c.counters))
+	for i := 0; i < int(v.c._nrCounters); i++ {
+		if i > 0 {
+			sb.WriteByte(',')
+		}
+		if i < len(v.c.counters) {
+			fmt.Fprintf(&sb, "(%d,%d)", v.c.counters[i].seqNr, v.c.counters[i].count)
+		} else {
+			sb.WriteString("OOB")
+		}
+	}
+	sb.WriteByte(']')
+	return sb.String()
+}
+
+// VerifBuf wraps segDataBuffer.
+type VerifBuf struct{ b *segDataBuffer }
+
+func NewVerifBuf(size uint32) *VerifBuf { return &VerifBuf{b: newSegDataBuffer(size)} }
+func (v *VerifBuf) Add(seqNr uint32, dts uint64, dur uint32, isShifted bool) error {
+	return v.b.add(recSegData{seqNr: seqNr, dts: dts, dur: dur, isShifted: isShifted})
+}
+func (v *VerifBuf) GetItem(seqNr uint32) (dts uint64, dur uint32, ok bool) {
+	it, ok := v.b.getItem(seqNr)
+	return it.dts, it.dur, ok
+}
+func (v *VerifBuf) Resize(n uint32)           { v.b.resize(n) }
+func (v *VerifBuf) DropSeqNr(n uint32)        { v.b.dropSeqNr(n) }
+func (v *VerifBuf) RemoveUnshifted() []uint32 { return v.b.removeUnshifted() }
+func (v *VerifBuf) Dump() string              { return dumpBuf(v.b) }
+
+func dumpBuf(b *segDataBuffer) string {
+	var sb strings.Builder
+	fmt.Fprintf(&sb, "nr=%d size=%d len=%d [", b._nrItems, b.size, len(b.items))
+	for i := 0; i < int(b._nrItems); i++ {
+		if i > 0 {
+			sb.WriteByte(',')
+		}
+		if i < len(b.items) {
+			sh := 0
+			if b.items[i].isShifted {
+				sh = 1
+			}
+			fmt.Fprintf(&sb, "(%d,%d,%d,%d)", b.items[i].seqNr, b.items[i].dts, b.items[i].dur, sh)
+		} else {
+			sb.WriteString("OOB")
+		}
+	}
+	sb.WriteByte(']')
+	return sb.String()
+}
+
+// VerifGen wraps segmentTimelineGenerator together with a minimal channel for MPD generation.
+type VerifGen struct {
+	g  *segmentTimelineGenerator
+	ch *channel
+}
+
+// NewVerifGen creates a generator writing into dir; adaptationSets lists the representation ids per AdaptationSet.
+func NewVerifGen(dir string, windowSize uint32, adaptationSets [][]string) *VerifGen {
+	mpd := m.NewMPD("dynamic")
+	p := m.NewPeriod()
+	p.Id = "P0"
+	mpd.AppendPeriod(p)
+	for _, reps := range adaptationSets {
+		as := m.NewAdaptationSet()
+		as.SegmentTemplate = m.NewSegmentTemplate()
+		as.SegmentTemplate.Media = "$RepresentationID$/$Number$.m4s"
+		as.SegmentTemplate.Duration = m.Ptr(uint32(1))
+		for _, id := range reps {
+			r := m.NewRepresentation()
+			r.Id = id
+			as.AppendRepresentation(r)
+		}
+		p.AppendAdaptationSet(as)
+	}
+	ch := &channel{dir: dir, mpd: mpd, masterSegDuration: 1, masterTimescale: 1, trDatas: map[string]*trData{}}
+	return &VerifGen{g: newSegmentTimelineGenerator(dir, windowSize), ch: ch}
+}
+
+func (v *VerifGen) Add(name string, seqNr uint32, dts uint64, dur uint32, isShifted bool) (uint32, error) {
+	return v.g.addSegmentData(slog.Default(), recSegData{name: name, seqNr: seqNr, dts: dts, dur: dur, isShifted: isShifted, isComplete: true})
+}
+func (v *VerifGen) Start(w uint32, isShifted bool) { v.g.start(w, isShifted) }
+func (v *VerifGen) DropSeqNr(n uint32)             { v.g.dropSeqNr(n) }
+func (v *VerifGen) Latest() uint32                 { return v.g.latestSeqNr }
+
+// GenMPD runs the real generateSegmentTimelineNrMPD and returns the error (if any).
+func (v *VerifGen) GenMPD(newSeqNr uint32) error {
+	return v.g.generateSegmentTimelineNrMPD(slog.Default(), newSeqNr, v.ch, 0)
+}
+
+// ReadMPD parses the written MPD: per AdaptationSet startNumber and expanded (t,d) list.
+func (v *VerifGen) ReadMPD() (string, error) {
+	path := filepath.Join(v.ch.dir, timelineNrMPD)
+	if _, err := os.Stat(path); err != nil {
+		return "-", nil
+	}
+	mp, err := m.ReadFromFile(path)
+	if err != nil {
+		return "", err
+	}
+	var parts []string
+	for _, as := range mp.Periods[0].AdaptationSets {
+		st := as.SegmentTemplate
+		var sb strings.Builder
+		sn := uint32(0)
+		if st.StartNumber != nil {
+			sn = *st.StartNumber
+		}
+		fmt.Fprintf(&sb, "sn=%d:", sn)
+		if st.SegmentTimeline != nil {
+			t := uint64(0)
+			for _, s := range st.SegmentTimeline.S {
+				if s.T != nil {
+					t = *s.T
+				}
+				for k := 0; k <= int(s.R); k++ {
+					fmt.Fprintf(&sb, "(%d,%d)", t, s.D)
+					t += s.D
+				}
+			}
+		}
+		parts = append(parts, sb.String())
+	}
+	return strings.Join(parts, "|"), nil
+}
+
+func (v *VerifGen) Dump() string {
+	names := make([]string, 0, len(v.g.segDataBuffers))
+	for n := range v.g.segDataBuffers {
+		names = append(names, n)
+	}
+	sort.Strings(names)
+	var sb strings.Builder
+	cv := VerifCounters{c: v.g.counters}
+	fmt.Fprintf(&sb, "started=%v shifted=%v w=%d tracks=%d latest=%d ctr{%s}", v.g._started, v.g._shifted, v.g.windowSize,
+		v.g._nrTracks, v.g.latestSeqNr, cv.Dump())
+	for _, n := range names {
+		fmt.Fprintf(&sb, " %s{%s}", n, dumpBuf(v.g.segDataBuffers[n]))
+	}
+	return sb.String()
+}
